@@ -34,7 +34,11 @@ from typing import Any, Callable, Union, Iterable, Optional
 from networkx import MultiDiGraph
 from sympy import Symbol, Expr, Function, Dummy, lambdify
 from sympy.core.function import AppliedUndef
+from sympy import Float
 import numpy as np
+
+# values of the documented functions that sympy cannot evaluate itself, for calls on purely numeric arguments
+_numeric_funcs = {'sigmoid': lambda x: 1.0 / (1.0 + np.exp(-x)), 'absv': abs, 'maxi': max, 'mini': min}
 
 # meta infos
 __author__ = "Richard Gast"
@@ -1292,14 +1296,20 @@ class ComputeGraph(MultiDiGraph):
             # with a transcendental in its RHS. Renames that actually differ
             # (e.g. ``matmul`` → ``dot``, ``no_op`` → ``identity``) still rebind
             # as before; those cases never benefit from sympy.diff anyway.
-            try:
-                expr_old = expr.func.__name__
-                func_info = self.get_op(expr_old, shape=node.shape)
-                new_call = func_info['call']
-                if new_call != expr_old:
-                    expr = expr.replace(expr.func, Function(new_call))
-            except (AttributeError, KeyError):
-                pass
+            if isinstance(expr, AppliedUndef) and expr.func.__name__ in _numeric_funcs and expr.args and \
+                    all(a.is_number and a.is_real for a in expr.args):
+                # a documented scalar function that sympy cannot evaluate itself, called on numbers only (sigmoid(1)):
+                # replaced by its value (backend functions do not accept Python numbers, Fortran no integer literal)
+                expr = Float(_numeric_funcs[expr.func.__name__](*[float(a) for a in expr.args]))
+            else:
+                try:
+                    expr_old = expr.func.__name__
+                    func_info = self.get_op(expr_old, shape=node.shape)
+                    new_call = func_info['call']
+                    if new_call != expr_old:
+                        expr = expr.replace(expr.func, Function(new_call))
+                except (AttributeError, KeyError):
+                    pass
 
         # case II: node is a simple variable or constant
         except AttributeError:
